@@ -3,6 +3,7 @@
 // evaluated next to every library call; accuracy measure = relative error of tan(angle) in units of eps.
 // Law monitors: conversion o inverse = identity, oddness (bit-exact), fixed points 0 / +-90, monotone ladders,
 // series vs exact for |f| <= 1/150, cross-class agreement (Geodesic, GeodesicExact, Rhumb, Geocentric, Math::taupf).
+#include "harness/value_semantics.hpp"
 #include <GeographicLib/AuxLatitude.hpp>
 #include <GeographicLib/DAuxLatitude.hpp>
 #include <GeographicLib/AuxAngle.hpp>
@@ -80,7 +81,9 @@ static std::string regime_of(double ba, double f) {
 static Ell make_ell(double a, double f) {
   Ell e; e.a = a; e.f = f; e.ba = 1 - f; e.regime = regime_of(e.ba, f); e.series_ok = std::fabs(f) <= (1.0 / 150) * (1 + 1e-9);
   e.R = std::make_shared<ref::AuxRef>(ref::AuxRef::from_af(a, f));
-  e.L = std::make_shared<DAux>(a, f); e.E = std::make_shared<Ellipsoid>(a, f);
+  // detached copies (harness/value_semantics.hpp): the source object is overwritten by one for another ellipsoid and destroyed
+  e.L.reset(vh::detached_new<DAux>([&] { return DAux(a, f); }, [&] { return DAux(a * 1.25, f > 0.5 ? 0.01 : 0.25); }));
+  e.E.reset(vh::detached_new<Ellipsoid>([&] { return Ellipsoid(a, f); }, [&] { return Ellipsoid(a * 1.25, f > 0.5 ? 0.01 : 0.25); }));
   return e;
 }
 static Ell make_ell_axes(double a, double b) {
